@@ -130,6 +130,21 @@ class ASet:
         return ASet(self.member, self.key_sort)
 
 
+class FStr:
+    """An f-string with symbolic parts, modelled as a tuple: (literal skeleton, components).
+
+    Assumption (listed): two f-strings are equal iff their skeletons are equal and their components are
+    pairwise equal, i.e. separators never occur inside a component and str(int) is injective.
+    """
+
+    def __init__(self, skeleton, comps):
+        self.skeleton = tuple(skeleton)
+        self.comps = list(comps)
+
+    def __repr__(self):
+        return f"<fstr {self.skeleton}>"
+
+
 class SFun:
     """Uninterpreted pure callable (input of the function under verification)."""
 
